@@ -19,6 +19,7 @@ import time
 import common
 import c07_graphs as G
 import c07_harvest as H
+import c07_loops as L
 import c07_oracle as O
 
 DRIVER = os.path.join(common.VERIF, "harness", "ocaml", "solver_driver.ml")
@@ -91,7 +92,69 @@ def check_clauses(d, queries, answers, mode):
             out.append(("iv:subset-rejected:" + (cls if acyc else "cyclic"),
                         "clause (iv): a subset of an accepted combination is rejected",
                         {"node": n, "goals": list(S), "subset": list(sub)}))
+      if seen_false.get((n, S)):
+        # the improper subset: the SAME combination, at the same node of the same graph, is accepted by one
+        # query and rejected by another (another position in the solver's lifetime / a fresh solver)
+        out.append(("iv:same-set-flips:" + (cls if acyc else "cyclic"),
+                    "clause (iv) with the subset equal to the set: the same combination is both accepted and "
+                    "rejected at the same node of the same graph, depending on what the solver was asked before",
+                    {"node": n, "goals": list(S), "subset": list(S)}))
   return out
+
+
+NOT_MODELLED = ":not-as-modelled"
+
+
+def mismatch_keys(queries, answers, model):
+  """(node, goal set) of every H/V query whose answer differs between cfg.so and the Coq model."""
+  keys = set()
+  ai = 0
+  for q in queries:
+    if q[0] == "R":
+      continue
+    a = answers[ai] if ai < len(answers) else None
+    m = model[ai] if ai < len(model) else None
+    ai += 1
+    if a != m and q[0] in ("H", "V"):
+      keys.add((q[1], tuple(sorted(set(q[2])))))
+  return keys
+
+
+def classify(desc, queries, answers, model, mode):
+  """check_clauses, with the fingerprint of a violation that involves an answer the Coq model of solver.cc does
+  NOT reproduce marked `:not-as-modelled`: the listed findings are behaviours of the algorithm as modelled (each
+  refuted in Coq by a witness); a clause violation the model does not predict is a different violation."""
+  out = []
+  bad = mismatch_keys(queries, answers, model) if model is not None else set()
+  for fp, what, detail in check_clauses(desc, queries, answers, mode):
+    involved = {(detail["node"], tuple(detail["goals"]))}
+    if "subset" in detail:
+      involved.add((detail["node"], tuple(detail["subset"])))
+    if involved & bad:
+      detail = dict(detail, model_disagrees_on=sorted([n, list(g)] for n, g in involved & bad))
+      out.append((fp + NOT_MODELLED, what + " (and cfg.so answers differently from the Coq model of solver.cc here)", detail))
+    else:
+      out.append((fp, what, detail))
+  # stable order, the unmodelled ones first
+  out.sort(key=lambda v: not v[0].endswith(NOT_MODELLED))
+  return out
+
+
+_EXE = [None]
+_PROC = [None]
+
+
+def model_answers(desc, queries):
+  """The Coq model's answers for one case, through one long-lived model process (used while shrinking)."""
+  if _EXE[0] is None:
+    return None
+  try:
+    if _PROC[0] is None:
+      _PROC[0] = G.ModelProc(_EXE[0])
+    return _PROC[0].ask(G.model_line(desc, queries))
+  except Exception:  # pylint: disable=broad-except
+    _PROC[0] = None
+    return None
 
 
 # ------------------------------------------------------------------------------------------
@@ -169,7 +232,7 @@ def eval_chunk(args):
                                  "flags": flags, "flags_expected": want})
       else:
         summ["mismatch"].append(None)
-    for fp, what, detail in check_clauses(desc, qs, ans, mode):
+    for fp, what, detail in classify(desc, qs, ans, mo, mode):
       if sum(1 for v in summ["violations"] if v and v[0] == fp) < 3:
         summ["violations"].append((fp, what, {"desc": desc, "queries": qs, "mode": mode,
                                               "detail": detail, "case": name}))
@@ -346,7 +409,35 @@ def random_cases(r, tier_scale):
   for i in range(400 * tier_scale):
     d, qs = blocker_braid_case(r)
     cases.append(("bbraid%d" % i, d, qs, "fresh" if i % 2 else "shared"))
+  for i in range(1500 * tier_scale):
+    d, qs = L.random_case(r, want_cond=(i % 3 == 2))
+    cases.append(("mloop%d" % i, d, with_fresh_tail(qs), "shared"))
   return cases
+
+
+def with_fresh_tail(qs):
+  """Appends every distinct H/V query once more, each answered by a FRESH solver: any answer inside a solver
+  lifetime that a fresh solver does not give shows up as clause (iv) on the same set (and in the model diff)."""
+  out = list(qs)
+  seen = set()
+  for q in qs:
+    if q[0] in ("H", "V"):
+      k = (q[1], tuple(sorted(set(q[2]))))
+      if k not in seen:
+        seen.add(k)
+        out.append(("R",)); out.append(("H", q[1], list(k[1])))
+  return out
+
+
+def loop_scope_cases(thorough):
+  """The small exhaustive scope of the loop family (c07_loops.exhaustive_cases): quick = the 4-node loop, every
+  source-set choice, every allocation order, every ordered PAIR of distinct single-goal queries per lifetime;
+  thorough adds the 5-node loop and every ordered triple."""
+  if thorough:
+    cs = L.exhaustive_cases(shapes=("std", "deep"), lifetimes=(2, 3))
+  else:
+    cs = L.exhaustive_cases(shapes=("std",), lifetimes=(2,))
+  return [(name, d, with_fresh_tail(qs), "shared") for name, d, qs in cs]
 
 
 def harvested_cases(res, r, n_programs):
@@ -484,7 +575,8 @@ def _still(fp, d, queries, mode):
     desc, ans = run_impl_case(d, queries)
   except Exception:  # pylint: disable=broad-except
     return None
-  for f, what, detail in check_clauses(desc, queries, ans, mode):
+  mo = model_answers(desc, queries) if fp.endswith(NOT_MODELLED) else None
+  for f, what, detail in classify(desc, queries, ans, mo, mode):
     if f == fp:
       return (desc, detail)
   return None
@@ -568,7 +660,12 @@ def run(res):
       "directed loop graphs carrying a source-set dependency cycle, conditions after the loop and goals "
       "with no / unreachable origins; and directed 'braid' graphs (a shortest path with overlapping "
       "detours around conditional nodes), the same with every goal variable re-bound at inner nodes and all "
-      "subsets of three goals asked; and typegraphs HARVESTED FROM REAL VM RUNS (small generated "
+      "subsets of three goals asked; and loops with loop-carried, MUTUALLY DEPENDENT source sets (c07_loops: 1-3 "
+      "variables updated in the loop from each other and from pre-loop definitions, optional conditions, both "
+      "binding allocation orders, several query orders and several solver lifetimes per graph, every distinct "
+      "query once more by a fresh solver) as random members and as a small exhaustive scope (4-node loop, every "
+      "source-set choice, every allocation order, every ordered pair - thorough: triple, and the 5-node loop - of "
+      "single-goal queries per lifetime); and typegraphs HARVESTED FROM REAL VM RUNS (small generated "
       "programs with branches/joins/conditional expressions analysed by pytype, final typegraph dumped "
       "through the public cfg API, IsVisible asked for every program-made binding at every node, answers "
       "of the live program compared with the rebuilt graph). Queries per graph: HasCombination on random nodes x goal sets of "
@@ -595,6 +692,7 @@ def run(res):
   except common.BuildError as e:
     res.obligation("model-build", False, str(e)[-2000:])
     return "proof"
+  _EXE[0] = exe
   res.trusted_base += [
       "Coq extraction (ExtrOcamlBasic only) + OCaml 4.13.1 ocamlopt + harness/ocaml/solver_driver.ml",
       "out-of-tree g++ build of /repo/pytype/typegraph/*.cc (harness/common.py build_cfg)",
@@ -603,6 +701,9 @@ def run(res):
   cases = load_corpus()
   n_corpus = len(cases)
   cases += random_cases(r, 6 if thorough else 1)
+  xl = loop_scope_cases(thorough)
+  res.extra["loop_scope_cases"] = len(xl)
+  cases += xl
   cases += harvested_cases(res, common.rng(res.seed, "c07-harvest"), 250 if thorough else 36)
   if thorough:
     for i in range(150000):
@@ -699,24 +800,34 @@ def run(res):
 
 
 def replay(res, path):
+  """Re-runs the stored case.  Origin::source_sets iterates in raw-pointer order, so the answers can depend on where
+  the allocator put the bindings: the case is run up to 12 times with the heap perturbed in between; one failing
+  run is a failure."""
   common.bootstrap_pytype()
   j = json.load(open(path))
   rep = j["replay"]
   d = rep["desc"]; qs = [tuple(q) for q in rep["queries"]]; mode = rep.get("mode", "shared")
-  desc, ans = run_impl_case(d, qs)
-  print("graph  :", json.dumps(desc))
-  print("queries:", json.dumps(qs))
-  print("impl   :", " ".join(ans))
+  fp = j.get("fingerprint")
   try:
-    exe = model_exe()
-    pr = subprocess.run([exe], input=G.model_line(desc, qs) + "\n", capture_output=True, text=True)
-    print("model  :", pr.stdout.strip())
+    _EXE[0] = model_exe()
   except Exception as e:  # pylint: disable=broad-except
     print("model  : <unavailable: %r>" % e)
-  v = check_clauses(desc, qs, ans, mode)
-  for fp, what, detail in v:
-    print("oracle : VIOLATED", fp, what, json.dumps(detail))
-  if not v:
-    print("oracle : all four clauses hold on these answers")
-  fp = j.get("fingerprint")
-  return 1 if any(f == fp for f, _, _ in v) or (fp in (None, "obligation") and v) else 0
+  keep = []
+  for attempt in range(12):
+    desc, ans = run_impl_case(d, qs)
+    mo = model_answers(desc, qs)
+    v = classify(desc, qs, ans, mo, mode)
+    hit = any(f == fp for f, _, _ in v) or (fp in (None, "obligation") and bool(v))
+    if hit or attempt == 11:
+      print("graph  :", json.dumps(desc))
+      print("queries:", json.dumps(qs))
+      print("impl   :", " ".join(ans))
+      print("model  :", " ".join(mo) if mo is not None else "<unavailable>")
+      for f, what, detail in v:
+        print("oracle : VIOLATED", f, what, json.dumps(detail))
+      if not v:
+        print("oracle : all four clauses hold on these answers")
+      return 1 if hit else 0
+    keep.append((G.Impl({"nodes": [{"inc": [], "cond": None}], "bindings": [{"var": 0, "origins": [[0, [[]]]]}]}),
+                 [object() for _ in range(7 * attempt + 3)]))
+  return 0
